@@ -59,7 +59,21 @@ pub fn on_call(w: &mut MWorld, ci: usize) {
     }
 }
 
-pub fn on_call_dropped(_w: &mut MWorld, _ci: usize) {}
+/// A manager / hook call finished (resolved, panicked or its future was dropped).
+pub fn on_call_end(w: &mut MWorld, ci: usize) {
+    let c = &w.calls[ci];
+    let failed = !matches!(c.res, CallRes::Ok);
+    match c.kind {
+        CallKind::Recycle | CallKind::PreRecycle(_) | CallKind::PostRecycle(_) | CallKind::PostCreate(_) => {
+            if failed {
+                if let Some(id) = c.obj {
+                    w.objs[id as usize].dead = true;
+                }
+            }
+        }
+        _ => {}
+    }
+}
 pub fn on_get_invoke(w: &mut MWorld, _opi: usize) {
     let n = w
         .ops
@@ -82,6 +96,13 @@ pub fn on_get_return(w: &mut MWorld, opi: usize) {
             let d = format!("get() panicked: {msg}");
             let p = w.sc.profile.clone();
             w.violate(&p, "unexpected_panic", d);
+        }
+    }
+    if is(w, "C04") {
+        if let Some(v) = c04_check_get(w, opi) {
+            if w.pending_violation.is_none() {
+                w.pending_violation = Some(v);
+            }
         }
     }
 }
@@ -471,6 +492,11 @@ pub fn final_checks(w: &mut MWorld, probe_err: Option<String>) -> Option<Violati
                 ));
             }
         }
+        if p == "C04" {
+            if let Some(v) = c04_final(w) {
+                return Some(v);
+            }
+        }
         if p == "C11" {
             let wt = Waiters {
                 waiting: vec![],
@@ -479,6 +505,276 @@ pub fn final_checks(w: &mut MWorld, probe_err: Option<String>) -> Option<Violati
             if let Some(v) = c11_exact(w, &wt, "end") {
                 return Some(v);
             }
+        }
+    }
+    None
+}
+
+// ---- C04: trace checker over each get's own call log -------------------------------
+
+fn c04(clause: &str, d: String) -> Option<Violation> {
+    Some(crate::engine::violation("C04", clause, d))
+}
+
+/// Checks the call log of one finished get against `attempt* final`.
+pub fn c04_check_get(w: &MWorld, opi: usize) -> Option<Violation> {
+    let op = &w.ops[opi];
+    let res = op.result.clone()?;
+    let cfg = &w.sc.pool;
+    let (n_pre, n_post, n_pc) = (
+        cfg.pre_recycle.len(),
+        cfg.post_recycle.len(),
+        cfg.post_create.len(),
+    );
+    // the get's own calls, detach calls filtered out (they are judged by the detach ledger)
+    let calls: Vec<&Call> = op
+        .calls
+        .iter()
+        .map(|c| &w.calls[*c])
+        .filter(|c| c.kind != CallKind::Detach)
+        .collect();
+    let describe = |cs: &[&Call]| -> String {
+        cs.iter()
+            .map(|c| format!("{}({}):{:?}", c.kind.name(), c.obj.map(|o| o.to_string()).unwrap_or_default(), c.res))
+            .collect::<Vec<_>>()
+            .join(" ")
+    };
+    let ended_early = |r: &OpRes| matches!(r, OpRes::Cancelled | OpRes::EnclosingTimeout);
+    if let OpRes::GetErr(ErrV::Other(m)) = &res {
+        return c04("documented_error_variants", format!("get returned an undocumented error: {m}"));
+    }
+    if let OpRes::GetErr(ErrV::TimeoutRecycle) = &res {
+        return c04("recycle_failures_never_surface", "get returned Timeout(Recycle)".into());
+    }
+    let mut i = 0;
+    loop {
+        if i >= calls.len() {
+            // no (further) call: the get ended in the wait phase or right after a rejected object
+            let ok = match &res {
+                OpRes::GetErr(ErrV::TimeoutWait) | OpRes::GetErr(ErrV::Closed) | OpRes::GetErr(ErrV::NoRuntime) => i == 0,
+                r if ended_early(r) => true,
+                OpRes::Panicked { .. } => true, // judged by unexpected_panic
+                _ => false,
+            };
+            if !ok {
+                return c04(
+                    "call_sequence",
+                    format!("get returned {:?} but its call log ends without a completed attempt: {}", res, describe(&calls)),
+                );
+            }
+            return None;
+        }
+        let first = calls[i];
+        if first.kind == CallKind::Create {
+            // final: create -> post_create hooks
+            i += 1;
+            match first.res {
+                CallRes::Err(e, _) => {
+                    if res != OpRes::GetErr(ErrV::Backend(e)) {
+                        return c04("create_error_surfaces_as_backend", format!("create failed with error #{e} but get returned {:?}", res));
+                    }
+                    if i != calls.len() {
+                        return c04("call_sequence", format!("calls after a failed create: {}", describe(&calls)));
+                    }
+                    return None;
+                }
+                CallRes::Panic => {
+                    if !matches!(res, OpRes::Panicked { injected: true, .. }) || i != calls.len() {
+                        return c04("call_sequence", format!("create panicked but get returned {:?}: {}", res, describe(&calls)));
+                    }
+                    return None;
+                }
+                CallRes::Dropped | CallRes::InFlight => {
+                    let timeout_ok = op.eff.1.map(|t| t > 0).unwrap_or(false) && cfg.runtime;
+                    let ok = ended_early(&res)
+                        || (res == OpRes::GetErr(ErrV::TimeoutCreate) && timeout_ok)
+                        || (res == OpRes::GetErr(ErrV::NoRuntime) && !cfg.runtime && !first.polled);
+                    if !ok || i != calls.len() {
+                        return c04(
+                            "create_timeout_variant",
+                            format!("create future was dropped unresolved but get returned {:?} (create timeout {:?}): {}", res, op.eff.1, describe(&calls)),
+                        );
+                    }
+                    return None;
+                }
+                CallRes::Ok => {}
+                _ => return c04("call_sequence", format!("odd create result: {}", describe(&calls))),
+            }
+            // created object id: from the hook calls or the result
+            let mut y: Option<u32> = None;
+            for j in 0..n_pc {
+                if i >= calls.len() {
+                    // hooks missing: only legal if the get was abandoned — impossible between sync steps
+                    return c04("post_create_hooks_all_run", format!("post_create hook {j} was not called: {}", describe(&calls)));
+                }
+                let c = calls[i];
+                if c.kind != CallKind::PostCreate(j as u8) {
+                    return c04("hook_order", format!("expected post_create[{j}], found {}: {}", c.kind.name(), describe(&calls)));
+                }
+                if let Some(prev) = y {
+                    if c.obj != Some(prev) {
+                        return c04("hook_order", format!("post_create hooks applied to different objects: {}", describe(&calls)));
+                    }
+                }
+                y = c.obj;
+                i += 1;
+                match c.res {
+                    CallRes::Ok => {}
+                    CallRes::Err(h, msg) => {
+                        let exp = if msg { ErrV::PostCreateMsg(h) } else { ErrV::PostCreateBackend(h) };
+                        if res != OpRes::GetErr(exp.clone()) {
+                            return c04("post_create_error_variant", format!("post_create[{j}] failed with {:?} but get returned {:?}", exp, res));
+                        }
+                        if i != calls.len() {
+                            return c04("hooks_stop_at_first_error", format!("calls after a failed post_create hook: {}", describe(&calls)));
+                        }
+                        return None;
+                    }
+                    CallRes::Panic => {
+                        if !matches!(res, OpRes::Panicked { injected: true, .. }) || i != calls.len() {
+                            return c04("call_sequence", format!("post_create panicked but get returned {:?}", res));
+                        }
+                        return None;
+                    }
+                    CallRes::Dropped | CallRes::InFlight => {
+                        if !ended_early(&res) || i != calls.len() {
+                            return c04("call_sequence", format!("post_create future dropped but get returned {:?}: {}", res, describe(&calls)));
+                        }
+                        return None;
+                    }
+                    _ => {}
+                }
+            }
+            if i != calls.len() {
+                return c04("call_sequence", format!("calls after the last post_create hook: {}", describe(&calls)));
+            }
+            match &res {
+                OpRes::GetOk(id) => {
+                    if let Some(y) = y {
+                        if y != *id {
+                            return c04("returns_verified_object", format!("hooks verified #{y} but get returned #{id}"));
+                        }
+                    }
+                    if w.objs[*id as usize].created_by_op != Some(opi) {
+                        return c04("returns_verified_object", format!("get created an object but returned #{id}, which it did not create"));
+                    }
+                    return None;
+                }
+                other => {
+                    return c04("all_ok_returns_object", format!("creation and all post_create hooks succeeded but get returned {:?}", other));
+                }
+            }
+        }
+        // an attempt on idle object x
+        let x = match first.obj {
+            Some(x) => x,
+            None => return c04("call_sequence", format!("unexpected call {}: {}", first.kind.name(), describe(&calls))),
+        };
+        let mut expected: Vec<CallKind> = Vec::new();
+        for j in 0..n_pre {
+            expected.push(CallKind::PreRecycle(j as u8));
+        }
+        expected.push(CallKind::Recycle);
+        for j in 0..n_post {
+            expected.push(CallKind::PostRecycle(j as u8));
+        }
+        let mut all_ok = true;
+        for (k, ek) in expected.iter().enumerate() {
+            if i >= calls.len() {
+                return c04("recycle_steps_all_run", format!("attempt on #{x} stops before {}: {}", ek.name(), describe(&calls)));
+            }
+            let c = calls[i];
+            if c.kind != *ek || c.obj != Some(x) {
+                return c04(
+                    "hook_order",
+                    format!("attempt on #{x}: expected {} as step {k}, found {}({:?}): {}", ek.name(), c.kind.name(), c.obj, describe(&calls)),
+                );
+            }
+            i += 1;
+            match c.res {
+                CallRes::Ok => {}
+                CallRes::Err(..) => {
+                    all_ok = false;
+                    break;
+                }
+                CallRes::Panic => {
+                    if !matches!(res, OpRes::Panicked { injected: true, .. }) || i != calls.len() {
+                        return c04("call_sequence", format!("{} panicked but get returned {:?}", ek.name(), res));
+                    }
+                    return None;
+                }
+                CallRes::Dropped | CallRes::InFlight => {
+                    let is_recycle_timeout = *ek == CallKind::Recycle
+                        && op.eff.2.map(|t| t > 0).unwrap_or(false)
+                        && cfg.runtime;
+                    if i == calls.len() && ended_early(&res) {
+                        return None;
+                    }
+                    if !is_recycle_timeout {
+                        return c04(
+                            "call_sequence",
+                            format!("{} future on #{x} was dropped but the get went on / returned {:?}: {}", ek.name(), res, describe(&calls)),
+                        );
+                    }
+                    all_ok = false;
+                    break;
+                }
+                _ => {}
+            }
+        }
+        if all_ok {
+            if i != calls.len() {
+                return c04("no_calls_after_success", format!("calls after a fully successful attempt on #{x}: {}", describe(&calls)));
+            }
+            if res != OpRes::GetOk(x) {
+                return c04("all_ok_returns_object", format!("every recycling step of #{x} succeeded but get returned {:?}", res));
+            }
+            return None;
+        }
+        // failed attempt: x must never be mentioned again by this get
+        if calls[i..].iter().any(|c| c.obj == Some(x)) {
+            return c04("rejected_object_not_touched_again", format!("#{x} appears again after a failed step: {}", describe(&calls)));
+        }
+        if res == OpRes::GetOk(x) {
+            return c04("rejected_object_not_returned", format!("get returned #{x} although a recycling step failed"));
+        }
+        // loop: next attempt / create / end
+    }
+}
+
+/// End-of-run ledger checks for C04: rejected objects are detached exactly once,
+/// destroyed and never mentioned after the failing step; healthy objects are never detached.
+pub fn c04_final(w: &MWorld) -> Option<Violation> {
+    for (id, o) in w.objs.iter().enumerate() {
+        if o.dead {
+            if o.detach_steps.len() != 1 {
+                return c04(
+                    "rejected_object_detached_once",
+                    format!("object #{id} failed a recycling/post_create step and was detached {} times", o.detach_steps.len()),
+                );
+            }
+            match o.destroyed {
+                None => return c04("rejected_object_discarded", format!("object #{id} failed a step but still exists at the end")),
+                Some(d) => {
+                    if o.detach_steps[0] > d {
+                        return c04("rejected_object_detached_once", format!("object #{id} was detached after it was destroyed"));
+                    }
+                }
+            }
+            // no call mentions it after the failing step (other than the detach)
+            let fail_idx = w.calls.iter().position(|c| {
+                c.obj == Some(id as u32) && c.kind != CallKind::Detach && c.kind != CallKind::Pred && !matches!(c.res, CallRes::Ok)
+            });
+            if let Some(fi) = fail_idx {
+                if let Some(later) = w.calls[fi + 1..].iter().find(|c| c.obj == Some(id as u32) && c.kind != CallKind::Detach) {
+                    return c04(
+                        "rejected_object_not_touched_again",
+                        format!("{} was called for #{id} after one of its recycling steps had failed", later.kind.name()),
+                    );
+                }
+            }
+        } else if !o.taken && !o.retain_removed && !o.detach_steps.is_empty() && !w.orc.shrunk {
+            return c04("healthy_object_not_detached", format!("object #{id} never failed a step but was detached"));
         }
     }
     None
